@@ -231,17 +231,18 @@ def one(ctx, rng, xr):
             if ip is None:
                 (rec.ok("dpspr", key) if np.isnan(o) else bad("dpspr", o, "nan", "value-without-interior-peak"))
             else:
-                oks, cond = False, False
+                oks, cond, floor = False, False, False
                 for k in acceptable:
                     r, R, tot = P.dir_moment_at(E[k], th)
                     q = 1.0 - R / tot
                     if q < 2e-3:
+                        floor = True      # an acceptable (tied) peak whose spread is at the cancellation floor
                         continue
                     cond = True
                     ref = np.degrees(np.sqrt(2 * q))
                     if abs(o - ref) <= (6e-3 if f32data else 1e-5) * ref:
                         oks = True
-                if not cond:
+                if not cond or (not oks and floor and (np.isnan(o) or o < 4.0)):
                     rec.skip("dpspr", "spread near zero (cancellation)")
                 elif oks:
                     rec.ok("dpspr", key)
